@@ -1391,7 +1391,7 @@ PROPS['C14'].update(
     explanation='Only the DECISION of the seven interlocks (the lock: main() stops with a failing status when a configured, not skipped lock cannot be taken, before anything is read; the sync branch of main reads the content, scans - where the scan interlocks stop it - and only then calls state_sync and state_write), each on the real code (mechanically extracted regions; exit() routed to a checking stub): (1) end of the scan: sync stops with a failing status iff on some disk every previously known file is now missing or rewritten (no unchanged, moved or restored file, and at least one removed or changed) and --force-empty was not given; diff only reports; (2) head of state_sync: sync stops iff the start position is beyond the array, a parity file cannot be opened, or some parity file of ANY level holds fewer whole blocks than parity_used_size() and neither --force-full nor --force-realloc was given - this region ends before the first parity_chsize / state_write / parity write of state_sync; parity_used_size is one past the last synced (BLK) block over all disks, parity_allocated_size one past the last file block; (3) content file records: a block size or hash size different from the configuration (or invalid) is refused, without configuration it is adopted; a recorded disk not found by name nor by UUID is refused, found by UUID is a rename that is saved.',
     trusted_base=['region extraction of state_diffscan / state_sync / state_read_content (5 regions)', 'parity_create / parity_size / parity_used_size / lev_name / sgetb32 / find_disk_by_name / find_disk_by_uuid by stub', 'the meaning of the scan counters (count_equal, count_move, count_restore, count_change, count_remove) as documented in struct snapraid_scan'],
     assumptions=['"without altering any content or parity file" is a whole-program ordering / frame statement over the file system and is NOT decided (only: the parity-size region precedes every resize / write inside state_sync; parity_create may still create a missing, empty parity file)', 'zero-size interlock: decided on the whole body of scan_file (unit scan.scan_file: a recorded non-empty file found by path that is now empty stops sync unless --force-zero; diff only reports); of the lock only the decision in main() is (a lock that cannot be taken stops the command before any state is read; lock_lock itself - open + flock - is the OS)', 'the counters: scan_file increments exactly one of equal / move / restore / change / insert / copy per entry (unit scan.scan_file); count_remove = recorded files and links not met by the walk (unit scan.removed.region, bounded)', 'bounded: 1..3 disks; block size 256 in the parity-size region; parity files below 2^32 blocks; -B start + count below 2^32'],
-    not_covered=['scan_dir / scan_disk', 'lock_lock / lock_unlock (cmdline/util.c)', 'that a refusal leaves every file byte-identical'])
+    not_covered=['scan_dir / scan_disk', 'that a refusal leaves every file byte-identical', 'the lock for every pair of commands and start offset (only lock_lock itself and the refusal in main are under contract)'])
 MANIFEST_TEXT['C14'] = dict(level_text='Narrow: the refuse / proceed decision of each interlock (empty disk, zero size, short parity, block size, hash size, missing disk, lock taken in main) is decided for all inputs on extracted regions / the extracted body of scan_file, plus the call order of the sync branch of main; that every file is byte-identical after a refusal is a file-system frame and is not decided - level other.',
                             design_ref='DESIGN.md section 4', level_note='regions by mechanical extraction; callees by stub; frame over the file system not decided', technique='CBMC drivers on mechanically extracted regions of real cmdline/scan.c, sync.c, state.c; bounded unit on real cmdline/parity.c')
 PROPS['C11'].update(
